@@ -33,12 +33,15 @@ class C02(Prop):
             'boundary (2^53±1, 2^63, 1e308, denormals, -0, 400-digit int) and non-finite streams; contexts over 6 registered '
             'ports (enabled with bool/int/bigint/float value, enabled without value, disabled with or without a context '
             'value) and 2 missing ids, all four roles, self port in any state, now_ms incl. negative and > 2^53 s. '
+            '30 % of the cases carry 1–3 further contexts (ports the tree reads change value / availability / enabled state, the '
+            'clock moves) under which the SAME parsed instance is evaluated again and compared with a fresh parse and the model. '
             'A case is non-trivial when its tree has ≥ 2 function applications; distinct = distinct (tree shape, outcome '
             'class) pair.')
     CORRESPONDENCE = ('Eval.eval / applyFn / portValue / selfValue / pySum (Model/Eval.lean, Model/Num.lean) <-> '
                       'core.expressions.parse(...).eval(EvalContext) [Function.eval_args, the _eval bodies of arithmetic/'
                       'comparison/logic/bitwise/rounding/sign/aggregation/various/time.py, PortValue/SelfPortValue/PortRef._eval, '
-                      'LiteralValue._eval]')
+                      'LiteralValue._eval]; Instance.run (Props eval_has_no_memory) <-> the same parsed instance evaluated '
+                      'under a sequence of contexts')
     TRUSTED = [
         'IEEE-754 binary64 + - * / and comparisons of the machine (Lean Float = C double = Python float); libm pow on '
         'positive finite bases (Float.pow and CPython call the same libm.so.6); everything else numeric (int→float, int/int, '
@@ -151,6 +154,25 @@ class C02(Prop):
             case(C('ONOFFAUTO', L('0'), P('p.1'))), case(C('ONOFFAUTO', L('-0.0'), L('3'))),
             case(C('BITAND', L('-5.9'), L('3'))), case(C('BITXOR', L('-1'), P('a'))), case(C('SHR', L('-7'), L('1'))),
             case(C('MIN', P('p.1'), L('1'))), case(C('MAX', L('1'), P('p.1'))),
+        ] + self._purity_corpus(case, L, P, C)
+
+    @staticmethod
+    def _purity_corpus(case, L, P, C):
+        """Context purity witnesses: one instance, several contexts (a y of a lookup table changes while the x's stay)."""
+        def seq(expr, vals0, *more):
+            c = case(expr, vals=vals0)
+            c['steps'] = [{'ports': c['ports'], 'vals': v, 'now': c['now'] + 1000 * (i + 1)} for i, v in enumerate(more)]
+            return c
+        return [
+            seq(C('LUT', P('a'), L('0'), P('d'), L('8'), P('p.1'), L('22'), P('d')),
+                {'a': 'i23', 'd': 'i15', 'p.1': 'i21'}, {'a': 'i23', 'd': 'i23', 'p.1': 'i21'}, {'a': 'i9', 'd': 'i23', 'p.1': 'i30'}),
+            seq(C('LUTLI', P('a'), L('0'), P('d'), L('8'), P('p.1'), L('22'), P('d')),
+                {'a': 'i15', 'd': 'i15', 'p.1': 'i21'}, {'a': 'i15', 'd': 'i23', 'p.1': 'i21'}, {'a': 'i15', 'd': 'i23'}),
+            seq(C('IF', P('a'), P('d'), P('p.1')), {'a': 'i1', 'd': 'i5', 'p.1': 'i6'}, {'a': 'i0', 'd': 'i5', 'p.1': 'i7'},
+                {'a': 'i1', 'd': 'i8', 'p.1': 'i7'}),
+            seq(C('MIN', P('a'), P('d'), L('4')), {'a': 'i1', 'd': 'i5'}, {'a': 'i9', 'd': 'i5'}, {'d': 'i2'}),
+            seq(C('ADD', C('TIME'), P('a')), {'a': 'i1'}, {'a': 'i2'}),
+            seq(C('DEFAULT', P('b'), P('a')), {'a': 'i1'}, {'a': 'i2', 'b': 'i7'}, {'a': 'i3'}),
         ]
 
     def gen(self, rng, tier):
@@ -168,6 +190,11 @@ class C02(Prop):
         if case['role'] != 1:
             c = dict(case)
             c['role'] = 1
+            yield c
+        steps = case.get('steps') or []
+        for i in range(len(steps)):
+            c = dict(case)
+            c['steps'] = steps[:i] + steps[i + 1:]
             yield c
 
     # ------------------------------------------------------------------------------------------ real side
@@ -195,15 +222,31 @@ class C02(Prop):
             await asyncio.sleep(0)
         return out
 
-    async def _real(self, case):
-        E = self.E
-        for pid, st in case['ports'].items():
+    async def _set_ports(self, ports):
+        for pid, st in ports.items():
             p = self.ports[pid]
             if st['en']:
                 await p.enable()
             else:
                 await p.disable()
             p.set_last_read_value(None if st['last'] is None else G.tok2v(st['last']))
+
+    async def _real_steps(self, case, root):
+        """Context purity: the SAME parsed instance is evaluated under each further context, next to a fresh parse."""
+        E = self.E
+        res = []
+        text = G.show(case['expr'])
+        for st in case.get('steps', ()):
+            await self._set_ports(st['ports'])
+            ctx = E.EvalContext({k: G.tok2v(v) for k, v in st['vals'].items()}, st['now'])
+            same = await self._eval_node(root, ctx)
+            fresh = await self._eval_node(E.parse(case['self'], text, case['role']), ctx)
+            res.append((same, fresh))
+        return res
+
+    async def _real(self, case):
+        E = self.E
+        await self._set_ports(case['ports'])
         self._base_tasks = len(asyncio.all_tasks(self.loop))
         text = G.show(case['expr'])
         try:
@@ -222,6 +265,7 @@ class C02(Prop):
             nodes.append((node, out, arg_outs))
             return out
         out = await walk(root)
+        self._step_outs = await self._real_steps(case, root)
         return root, out, nodes
 
     # ------------------------------------------------------------------------------------------ model side
@@ -253,7 +297,9 @@ class C02(Prop):
             return ['R', node.port_id]
         raise TypeError(type(node))
 
-    def _model(self, case, root, driver):
+    def _model(self, case, root, driver, ctx=None):
+        if ctx is not None:
+            case = dict(case, ports=ctx['ports'], vals=ctx['vals'], now=ctx['now'])
         lits = {}
         ew = self._encode(root, lits)
         w = ['evalu' if LEGACY else 'eval', str(case['role']), ','.join(str(r) for r in self.transform_roles), str(case['now']),
@@ -292,7 +338,8 @@ class C02(Prop):
                 resource.setrlimit(resource.RLIMIT_AS, (8 << 30, 8 << 30))
             except (ValueError, OSError):
                 pass
-        if not G.safe(case['expr'], case):
+        if not G.safe(case['expr'], case) or not all(G.safe(case['expr'], dict(case, vals=st['vals'], ports=st['ports']))
+                                                      for st in case.get('steps', ())):
             return None, {'tags': ['skipped:unbounded-integer-size'], 'key': None, 'observed': None}
         root, real, nodes = self.loop.run_until_complete(self._real(case))
         tags = {'stream:' + case.get('stream', 'plain'), 'role:%d' % case['role']}
@@ -355,6 +402,40 @@ class C02(Prop):
             if not ok:
                 fail = Failure('correspondence', f'`{text}`: real {real!r} model {model!r}', real=repr(real), model=repr(model),
                                where=text)
+
+        # ---- context purity (Props/C02.lean eval_has_no_memory): the same instance under further contexts
+        steps = case.get('steps', ())
+        if steps:
+            tags.add('steps:%d' % len(steps))
+        has_lut = any(n in ('LUT', 'LUTLI') for n in G.funcs_in(case['expr']))
+        for k, (st, (same, fresh)) in enumerate(zip(steps, self._step_outs)):
+            if fail is not None:
+                break
+            nan_here = any(isinstance(o[1], float) and o[1] != o[1] for o in (same, fresh) if o[0] == 'val')
+
+            def agree(a, b):
+                if a[0] != b[0]:
+                    return False
+                if a[0] == 'val':
+                    return R.same_num(a[1], b[1])
+                if a[0] == 'port':
+                    return a[1] == b[1]
+                return True
+            if not agree(same, fresh):
+                tags.add('step-differs-from-fresh')
+                fail = Failure('property', f'`{text}` evaluated again under context #{k + 2} yields {same!r}, but a freshly parsed '
+                               f'copy yields {fresh!r} under the same context: evaluation depends on earlier evaluations',
+                               real=repr(same), model=repr(fresh), where=text)
+                break
+            m = self._model(case, root, driver, st)
+            mm = ('weird', 'complex') if m[0] == 'complex' else m
+            if same[0] != real[0]:
+                tags.add('step-changes-class')
+            elif same[0] == 'val' and not R.same_num(same[1], real[1]):
+                tags.add('step-changes-value')
+            if not agree(same, mm) and not ((any_nan or nan_here) and has_lut) and not LEGACY:
+                fail = Failure('correspondence', f'`{text}` under context #{k + 2}: real {same!r} model {m!r}', real=repr(same),
+                               model=repr(m), where=text)
 
         nf = len(G.funcs_in(case['expr']))
         tags.add('size:%s' % ('1' if nf == 0 else '2-3' if G.size(case['expr']) <= 3 else '4-10' if G.size(case['expr']) <= 10
